@@ -237,9 +237,35 @@ def alphabet(N, tier):
             labels.append(["lin", idxs, v])
     labels.append(["lin", [1, 2], [0.0, B_]])
     labels.append(["linslice", [0, 2], A_])
+    # --- pure operations interleaved with the writes (they must not change the state, and a later write + read must
+    #     not be affected by anything they left behind)
+    for name in OPS:
+        labels.append(["op", name])
     if not full:
         labels = [lab for i, lab in enumerate(labels) if _quick_keep(lab, i)]
     return labels
+
+
+OPS = ["not", "le0", "div0", "gt0_poke"]
+
+
+def apply_op(T, S, name):
+    """Pure operations on the pair; results are discarded (gt0_poke additionally writes into the RESULT object)."""
+    if name == "not":
+        S.logical_not()
+        T.logical_not()
+    elif name == "le0":
+        _ = S <= 0
+        _ = T <= 0
+    elif name == "div0":
+        _ = S / 0
+    elif name == "gt0_poke":
+        C = S > 0
+        if C.nnz:
+            C[tuple(int(i) for i in C.subs[0])] = 7.0
+        D = T > 0
+        if D.data.size:
+            D.data[...] = 7.0
 
 
 def _quick_keep(lab, i):
@@ -312,6 +338,14 @@ def apply_label(T, S, R, lab):
 
     kind = lab[0]
     errs = {}
+    if kind == "op":
+        if R.a is None or R.a.size == 0:
+            raise Disabled()
+        try:
+            apply_op(T, S, lab[1])
+        except Exception as e:  # noqa: BLE001
+            errs["sptensor"] = e
+        return errs
     if kind == "region":
         key, rhs = lab[1], lab[2]
         rshape = R.write_region(key, rhs)
@@ -380,6 +414,8 @@ def describe(lab):
         f = "+".join(sorted(forms)) + ("(2lists)" if nl >= 2 else "")
         r = rhs if isinstance(rhs, str) else ("zero" if rhs == 0 else "scalar")
         return f"region[{f}]={r}"
+    if kind == "op":
+        return "op:" + lab[1]
     if kind == "subs":
         v = lab[2]
         r = "mixed" if isinstance(v, list) and any(x == 0 for x in v) else ("vec" if isinstance(v, list) else ("zero" if v == 0 else "scalar"))
@@ -387,10 +423,30 @@ def describe(lab):
     return kind
 
 
+def _attr_digest(obj):
+    """Every instance attribute of the object (not only the documented ones): two states are merged only if the
+    library cannot tell them apart through ANY attribute, so hidden per-object state (a cache, a flag) keeps
+    states distinct and their futures are explored separately."""
+    out = []
+    attrs = dict(getattr(obj, "__dict__", {}))
+    for klass in type(obj).__mro__:
+        for name in getattr(klass, "__slots__", ()):
+            if hasattr(obj, name):
+                attrs[name] = getattr(obj, name)
+    for name in sorted(attrs):
+        v = attrs[name]
+        if isinstance(v, np.ndarray):
+            out.append([name, str(v.dtype), list(v.shape), bool(v.flags["F_CONTIGUOUS"]), bool(v.flags["C_CONTIGUOUS"]),
+                        np.asfortranarray(v)])
+        elif isinstance(v, (tuple, list)):
+            out.append([name, [int(x) if isinstance(x, (int, np.integer)) else repr(x) for x in v]])
+        else:
+            out.append([name, repr(v)])
+    return out
+
+
 def concrete_key(T, S):
-    d = np.asarray(T.data)
-    return digest([O.pyshape(T.shape), d.flags["F_CONTIGUOUS"], d.flags["C_CONTIGUOUS"], np.asfortranarray(d),
-                   O.pyshape(S.shape), np.asarray(S.subs), np.asarray(S.vals), str(S.subs.dtype)])
+    return digest([_attr_digest(T), _attr_digest(S)])
 
 
 def check_state(ctx, hist, T, S, R, lab, extra=None):
@@ -519,6 +575,24 @@ def check_reads(ctx, hist, T, S, R):
         rd(lambda: X[0:n], want_all, "linear_slice")
         if n >= 2:
             rd(lambda: X[1:n], want_all[1:], "linear_slice")
+        if nm == "sptensor":
+            a = R.a
+            with np.errstate(all="ignore"):
+                derived = [("logical_not", lambda: X.logical_not(), np.logical_not(a).astype(float)),
+                           ("le0", lambda: X <= 0, (a <= 0).astype(float)),
+                           ("gt0", lambda: X > 0, (a > 0).astype(float)),
+                           ("ne0", lambda: X != 0, (a != 0).astype(float)),
+                           ("div0", lambda: X / 0, a / 0.0),
+                           ("ones", lambda: X.ones(), (a != 0).astype(float)),
+                           ("nnz", lambda: X.nnz, float(np.count_nonzero(a))),
+                           ("innerprod", lambda: X.innerprod(X), float(np.sum(a * a)))]
+            for dn, f, want in derived:
+                rd(f, want, "derived_" + dn)
+        else:
+            a = R.a
+            rd(lambda: X.nnz, float(np.count_nonzero(a)), "derived_nnz")
+            rd(lambda: X == 0, (a == 0).astype(float), "derived_eq0")
+            rd(lambda: X.innerprod(X), float(np.sum(a * a)), "derived_innerprod")
         for key in read_keys(shape):
             try:
                 want = R.read_region(key)
